@@ -158,6 +158,17 @@ pub fn mutations<V: Fv>(valid: &[u8], ty: Ty, rng: &mut ChaCha20Rng, flips: usiz
             let mut b = vec![valid[0]];
             b.extend(vec![0u8; len - 1]);
             out.push(("sk-all-zero".into(), b));
+            // f with exactly one vanishing NTT coefficient (a small trinomial with a root among
+            // the roots of X^n+1 mod q), g and F kept from the valid key
+            if let (Some(tri), Some((_f, g, cf))) = (trinomial_with_root(V::N, rng), spec::sk_decode(valid, V::N)) {
+                let mut f = vec![0i64; V::N];
+                f[0] = tri[0];
+                f[1] = tri[1];
+                f[2] = tri[2];
+                out.push(("sk-f-single-zero-ntt".into(), spec::sk_encode(&f, &g, &cf)));
+                // and the same for g
+                out.push(("sk-g-single-zero-ntt".into(), spec::sk_encode(&g, &f, &cf)));
+            }
             let mut b = vec![valid[0]];
             b.extend(vec![0xffu8; len - 1]);
             out.push(("sk-all-ones".into(), b));
@@ -186,4 +197,26 @@ pub fn mutations<V: Fv>(valid: &[u8], ty: Ty, rng: &mut ChaCha20Rng, flips: usiz
         out.push(("random-body".into(), b));
     }
     out
+}
+
+/// A small trinomial a + b x + c x^2 (|a|,|b|,|c| within the secret-key field range) that
+/// vanishes at one root of X^n + 1 modulo q, i.e. has exactly such NTT zeros.
+pub fn trinomial_with_root(n: usize, rng: &mut ChaCha20Rng) -> Option<[i64; 3]> {
+    let (w, _) = spec::sk_widths(n);
+    let lim = (1i64 << (w - 1)) - 1;
+    let psi = spec::find_psi(n);
+    let start = rng.gen_range(0..n);
+    for k in 0..n {
+        let om = spec::powm(psi, (2 * ((start + k) % n) + 1) as i64);
+        let om2 = om * om % spec::Q;
+        for b in -lim..=lim {
+            for c in 1..=lim {
+                let a = spec::center(-(b * om + c * om2));
+                if a.abs() <= lim && a != 0 {
+                    return Some([a, b, c]);
+                }
+            }
+        }
+    }
+    None
 }
